@@ -1865,10 +1865,197 @@ class AdapterO(K):
         return 2.0 * T
 
 
+class FlipScale(K):
+    """every operator class in its (lazily) flipped states -- none / .adjoint / .inverse / .adjoint.inverse /
+    .inverse.adjoint -- combined with a scalar through c*op, op*c, op.scale(c), op @ ScalingOperator(c),
+    ScalingOperator(c) @ op and SandwichOperator.make(ScalingOperator(c), op), against c * flip(M) computed
+    densely from the documented matrix M of the base class (construction-time simplification must not
+    change the matrix)"""
+    name = "flipped operator combined with a scaling"
+    tol = 1e-12
+    quick_n, thorough_n = 120, 1200
+    FLIPS = ["none", "adjoint", "inverse", "adjoint_inverse", "inverse_adjoint"]
+    HOWS = ["rmul", "mul", "scale", "matmul_right", "matmul_left", "sandwich", "scale_then_flip"]
+    CS = [2.0, -0.5, 4.0, 0.25, -1.0, [0.0, 1.0], [1.0, 1.0], [0.5, -2.0]]
+
+    def bases(self):
+        return [DiagonalO(), DiagonalO(), DiagonalO(), ScalingO(), Transpose(), Squeeze(), FFTShift(), Weight(), Contraction(), Mask(),
+                Slice(), DOFDist(), Padder(), Outer(), Vdot(), MatProd(), Regrid(), Extract(), DTFI()]
+
+    def gen(self, rng):
+        bs = self.bases()
+        b = bs[int(rng.integers(len(bs)))]
+        cfg = b.gen(rng)
+        if b.name == "MatrixProductOperator":
+            cfg["sparse"] = False
+        c = self.CS[int(rng.integers(len(self.CS)))]
+        return {"base": b.name, "cfg": cfg, "flip": self.FLIPS[int(rng.integers(len(self.FLIPS)))],
+                "how": self.HOWS[int(rng.integers(len(self.HOWS)))], "c": c}
+
+    def c(self, cfg):
+        return complex(*cfg["c"]) if isinstance(cfg["c"], list) else float(cfg["c"])
+
+    def parts(self, cfg):
+        b = BY_NAME[cfg["base"]]
+        M = np.asarray(b.ref(cfg["cfg"]), dtype=complex)
+        Mi = b.inv_ref(cfg["cfg"])
+        flip = cfg["flip"]
+        if Mi is None and "inverse" in flip:
+            flip = "adjoint"                  # the class advertises no inverse
+        how = cfg["how"]
+        if how == "sandwich" and b.name not in ("DiagonalOperator", "ScalingOperator", "FFTShiftOperator", "WeightApplier",
+                                                "MatrixProductOperator"):
+            how = "scale"                     # a sandwich needs an endomorphic cheese
+        return b, M, (None if Mi is None else np.asarray(Mi, dtype=complex)), flip, how
+
+    def build(self, ift, cfg):
+        b, M, Mi, flip, how = self.parts(cfg)
+        op = b.build(ift, cfg["cfg"])
+        c = self.c(cfg)
+
+        def doflip(o):
+            if flip == "adjoint":
+                return o.adjoint
+            if flip == "inverse":
+                return o.inverse
+            if flip == "adjoint_inverse":
+                return o.adjoint.inverse
+            if flip == "inverse_adjoint":
+                return o.inverse.adjoint
+            return o
+        if how == "scale_then_flip":
+            return doflip(op.scale(c))
+        f = doflip(op)
+        if how == "rmul":
+            return c * f
+        if how == "mul":
+            return f * c
+        if how == "scale":
+            return f.scale(c)
+        if how == "matmul_right":
+            return f @ ift.ScalingOperator(f.domain, c)
+        if how == "matmul_left":
+            return ift.ScalingOperator(f.target, c) @ f
+        return ift.SandwichOperator.make(ift.ScalingOperator(f.domain, c), f)
+
+    def fl(self, M, Mi, flip):
+        if flip == "adjoint":
+            return M.conj().T
+        if flip == "inverse":
+            return Mi
+        if flip in ("adjoint_inverse", "inverse_adjoint"):
+            return Mi.conj().T
+        return M
+
+    def ref(self, cfg):
+        b, M, Mi, flip, how = self.parts(cfg)
+        c = self.c(cfg)
+        if how == "scale_then_flip":
+            return self.fl(c * M, None if Mi is None else Mi / c, flip)
+        F = self.fl(M, Mi, flip)
+        return (abs(c) ** 2) * F if how == "sandwich" else c * F
+
+    def inv_ref(self, cfg):
+        b, M, Mi, flip, how = self.parts(cfg)
+        if Mi is None:
+            return None
+        c = self.c(cfg)
+        if how == "scale_then_flip":
+            return self.fl(Mi / c, c * M, flip)
+        Fi = self.fl(Mi, M, flip)
+        return Fi / (abs(c) ** 2) if how == "sandwich" else Fi / c
+
+    def nontrivial(self, cfg):
+        return cfg["flip"] != "none"
+
+
+class LOSO(K):
+    """LOSResponse (sigmas=None): the line integral of the piecewise constant field along each line of
+    sight; pixel i of an axis covers [(i-1/2) d, (i+1/2) d].  Reference: exact clipping of the segment
+    against every pixel box (slab method), independent of the traversal code.  Lines that miss the
+    volume, end exactly on a face from outside, start inside, or run parallel to an axis are included."""
+    name = "LOSResponse"
+    tol = 3e-5        # the implementation stores float32 weights and shifts the entry/exit points by 1e-7
+    quick_n, thorough_n = 40, 400
+
+    def gen(self, rng):
+        nd = int(rng.integers(1, 4))
+        shape = [int(rng.integers(1, 4)) for _ in range(nd)]
+        dist = [DISTS[int(rng.integers(len(DISTS)))] for _ in range(nd)]
+        nlos = int(rng.integers(2, 7))
+
+        def off(lo, hi):          # an off-grid pixel coordinate k/8 + 1/16 in [lo, hi)
+            return float(rng.integers(int(lo * 8), int(hi * 8))) / 8.0 + 0.0625
+        starts, ends, kinds = [], [], []
+        for _ in range(nlos):
+            kind = ["through", "inside", "in_out", "miss", "miss", "touch_out", "touch_in", "parallel"][int(rng.integers(8))]
+            a = int(rng.integers(nd))
+            ps = [off(0, n) for n in shape]
+            pe = [off(0, n) for n in shape]
+            if kind == "through":
+                ps[a], pe[a] = off(-2, 0) - 0.125, off(shape[a], shape[a] + 2) + 0.125
+            elif kind == "in_out":
+                pe[a] = off(shape[a], shape[a] + 2) + 0.125
+            elif kind == "miss":          # both end points beyond the same face
+                ps[a], pe[a] = off(-3, -1), off(-2, 0) - 0.125
+                if rng.integers(2):
+                    ps[a], pe[a] = shape[a] + 0.125 + off(0, 2), shape[a] + 0.125 + off(0, 2)
+            elif kind == "touch_out":     # comes from outside and ends exactly on a face: zero length inside
+                ps[a], pe[a] = off(-2, 0) - 0.125, 0.0
+            elif kind == "touch_in":      # starts exactly on a face and goes in
+                ps[a], pe[a] = 0.0, off(0, shape[a])
+            elif kind == "parallel":      # parallel to axis a (all other components equal), off-grid
+                pe = list(ps)
+                ps[a], pe[a] = off(-1, 0) - 0.125, off(shape[a], shape[a] + 1) + 0.125
+            if ps == pe:
+                pe[a] = pe[a] + 0.5
+            starts.append([(p - 0.5) * d for p, d in zip(ps, dist)])
+            ends.append([(p - 0.5) * d for p, d in zip(pe, dist)])
+            kinds.append(kind)
+        return {"shape": shape, "dist": dist, "starts": starts, "ends": ends, "kinds": kinds}
+
+    def build(self, ift, c):
+        from nifty.cl.library.los_response import LOSResponse
+        dom = ift.RGSpace(tuple(c["shape"]), distances=tuple(c["dist"]))
+        return LOSResponse(dom, np.array(c["starts"], dtype=float).T, np.array(c["ends"], dtype=float).T)
+
+    def ref(self, c):
+        shape, dist = c["shape"], np.array(c["dist"], dtype=float)
+        M = np.zeros((len(c["starts"]), prod(shape)))
+        for k, (s, e) in enumerate(zip(c["starts"], c["ends"])):
+            ps = np.array(s) / dist + 0.5
+            pe = np.array(e) / dist + 0.5
+            length = float(np.linalg.norm(np.array(e) - np.array(s)))
+            for idx in np.ndindex(*shape):
+                t0, t1 = 0.0, 1.0
+                for a in range(len(shape)):
+                    lo, hi = float(idx[a]), float(idx[a] + 1)
+                    d = pe[a] - ps[a]
+                    if d == 0.0:
+                        if not (lo <= ps[a] < hi):
+                            t0, t1 = 1.0, 0.0
+                            break
+                        continue
+                    ta, tb = (lo - ps[a]) / d, (hi - ps[a]) / d
+                    if ta > tb:
+                        ta, tb = tb, ta
+                    t0, t1 = max(t0, ta), min(t1, tb)
+                if t1 > t0:
+                    M[k, rav(shape, idx)] += (t1 - t0) * length
+        return M
+
+    def decl(self, c):
+        return {"target": [("U", [len(c["starts"])])]}
+
+    def nontrivial(self, c):
+        return any(k.startswith("miss") or k == "touch_out" for k in c["kinds"][:-1])
+
+
 MODELLED = [Contraction(), DOFDist(), PowerDist(), Padder(), Mask(), Slice(), Split(), ValueIns(), DTFI(), Outer(), Vdot(),
             Transpose(), Squeeze(), GeoRemover(), Reshaper(), Extract(), Weight(), FFTShift(), MatProd(), Regrid(), Interp(),
             Realizer(), Imaginizer(), Conjugation(), FieldAdapterK(), PartialExtractorK(), PrependKeyK(), MF2Vec()]
 ORACLE_ONLY = [ScalingO(), DiagonalO(), NullO(), EinsumO(), HarmonicO(), SHTO(), SmoothO(), FuncConvO(), SandwichO(), BlockDiagO(),
-               PartialConjO(), SlopeRemoverO(), TwoLogO(), CFDistributorO(), LowerTriO(), DiagSelO(), AdapterO()]
+               PartialConjO(), SlopeRemoverO(), TwoLogO(), CFDistributorO(), LowerTriO(), DiagSelO(), AdapterO(),
+               FlipScale(), LOSO()]
 ALL = MODELLED + ORACLE_ONLY
 BY_NAME = {k.name: k for k in ALL}
